@@ -113,6 +113,7 @@ type run struct {
 	sideTables map[interface{}]interface{}
 	fnSeen     map[*ssa.Function]bool
 	schedLog   []int
+	switches   []switchEv
 	hooks      map[string]value
 	maxPreempt int
 }
@@ -415,6 +416,8 @@ type pathResult struct {
 	UF        map[string][]ufRow `json:"uf,omitempty"`
 	Trace     []traceEvent      `json:"trace,omitempty"`
 	Sched     []int             `json:"sched,omitempty"`
+	Switches  []switchEv        `json:"switches,omitempty"`
+	Threads   []string          `json:"threads,omitempty"`
 	Reached   []string          `json:"reached,omitempty"`
 	Steps     int64             `json:"steps"`
 }
@@ -588,7 +591,14 @@ func (ex *explorer) runPath(prefix []int64, sv *Solver) {
 // result builds the serialisable description of the finished path, including a
 // model of the path condition when withModel.
 func (r *run) result(withModel bool) *pathResult {
-	pr := &pathResult{Harness: r.ex.name, Outcome: r.outcome.String(), Msg: r.outcomeMsg, Viol: r.viol, Steps: r.steps, Sched: r.schedLog}
+	pr := &pathResult{Harness: r.ex.name, Outcome: r.outcome.String(), Msg: r.outcomeMsg, Viol: r.viol, Steps: r.steps, Sched: r.schedLog, Switches: r.switches}
+	for _, t := range r.threads {
+		k := "harness:"
+		if t.lib {
+			k = "lib:"
+		}
+		pr.Threads = append(pr.Threads, k+t.origin)
+	}
 	for _, d := range r.decisions {
 		pr.Decisions = append(pr.Decisions, d.v)
 		pr.Kinds = append(pr.Kinds, d.kind)
